@@ -35,8 +35,8 @@ def handle (op : String) (inp go : Sexp) : Option Reply :=
       let m := Sexp.list [encNats idx, encNats idx2]
       let v : String :=
         -- only X and Y are read as exact rationals: extra ordinates may be anything
-        let raw := (listOf bits fl).getD []
-        let n := raw.length / stride
+        let raw := ((listOf bits fl).getD []).toArray
+        let n := raw.size / stride
         let xy : Option (List C20.Pt) := (List.range n).mapM fun i => do
           let x ← Exact.ofBits (raw.getD (i * stride) 0)
           let y ← Exact.ofBits (raw.getD (i * stride + 1) 0)
